@@ -8,7 +8,7 @@ CLAUSES = {1: "C19 monitor failed on the implementation's trace: a status line w
            2: "Ctrl+O pressed (as a real key, through the terminal's key handling) while shell output was being written: the mute was never announced "
               "and/or a later status line was never written - the terminal stopped for good",
            10: "model/implementation differ on what is written, dropped or announced at some instant"}
-EV = {"o": "CtrlO", "p": "Plain", "s": "Status", "l": "Status", "t": "Tick"}
+EV = {"o": "CtrlO", "p": "Plain", "s": "Status", "l": "Status", "j": "Status", "t": "Tick"}
 
 
 def with_tail(evs):
@@ -40,7 +40,7 @@ def rand_sched(rng):
                 evs.append({"t": t, "ev": "p"})
         else:
             t += rng.choice([0, 1, 5, 250, 1000, 1998, 1999, 2000, 2001, 2002, 2500, 4000, 4001, rng.randrange(0, 5000)])
-            evs.append({"t": t, "ev": rng.choice("oppssl" "t")})
+            evs.append({"t": t, "ev": rng.choice("oppssl" "tj")})
     return with_tail(evs)
 
 
@@ -80,11 +80,14 @@ def backlog(rng, n):
         for g2 in gaps:
             out.append(with_tail([{"t": 0, "ev": "o"}, {"t": g1, "ev": "b"}, {"t": g1 + g2, "ev": "b"}]))
             out.append(with_tail([{"t": 0, "ev": "b"}, {"t": g1, "ev": "o"}, {"t": g1 + g2, "ev": "b"}]))
+    for g1 in gaps:             # Ctrl+J (a local printout) while muted: shown, and no influence on when the mute ends
+        out.append(with_tail([{"t": 0, "ev": "o"}, {"t": g1, "ev": "j"}]))
+        out.append(with_tail([{"t": 0, "ev": "o"}, {"t": 500, "ev": "j"}, {"t": 500 + g1, "ev": "j"}, {"t": 1000 + g1, "ev": "p"}]))
     for _ in range(n):
         t, evs = 0, []
         for _ in range(rng.choice([4, 8, 16])):
             t += rng.choice([0, 1, 5, 250, 1000, 1999, 2000, 2001, 2500, 4001])
-            evs.append({"t": t, "ev": rng.choice("obbpps")})
+            evs.append({"t": t, "ev": rng.choice("obbppsj")})
         out.append(with_tail(evs))
     return out
 
@@ -137,6 +140,9 @@ def check(run):
     for k in range(6 if run.tier == "quick" else 200):
         n = run.rng.choice([50, 200, 600])
         kc.append({"i": len(kc), "mode": "free", "chunks": n, "key_at": run.rng.randrange(0, n)})
+    nkey = len(kc)
+    for k in range(1 if run.tier == "quick" else 4):
+        kc.append({"i": len(kc), "mode": "lockwin"})
     inf, outf = os.path.join(run.rundir, "key.in"), os.path.join(run.rundir, "key.out")
     with open(inf, "w") as f:
         for c in kc:
@@ -149,6 +155,20 @@ def check(run):
             rc, len(kres), len(kc), out[-1500:].decode(errors="replace"), [r["fail"] for r in kres if r.get("fail")][:2]))
     else:
         B_ = lambda x: str(bool(x)).lower()
+        lw = [(c, r) for c, r in zip(kc, kres) if c["mode"] == "lockwin"]
+        kc, kres = kc[:nkey], kres[:nkey]
+        def lwterm(c, r):
+            e = "[(0%Z, CtrlO); (1900%Z, Plain); (3000%Z, Tick); (4800%Z, Tick)]"   # the chunk ARRIVES at 1.9 s (it is written, i.e. dropped, at 2.15 s)
+            early, late = r.get("unmuted_at_3000"), r.get("unmuted_at_4800")
+            o = "[([], [AnnMuting]); ([], [%s]); ([%s], []); ([%s], [])]" % ("Wrote" if r.get("chunk_shown") else "Dropped", "AnnUnmuting" if early else "",
+                                                                              "AnnUnmuting" if (late and not early) else "")
+            return "mk %s %s" % (e, o)
+        if lw:
+            vlib.judge_stream(run, "lockwindow", IMPORTS, "case", [c for c, _ in lw], [r for _, r in lw], lwterm, CLAUSES, (),
+                              "real time: Ctrl+O, then the Shell's write lock is held from 1.9 s to 2.15 s (a long write to a slow terminal); a chunk of shell "
+                              "output waits for the lock, the silence timer fires at 2.0 s and its callback waits behind the chunk; after the release the chunk "
+                              "is dropped and re-arms the mute, so nothing may be announced at 3.0 s and 'Unmuting' must have appeared by 4.8 s",
+                              key_fn=lambda c: json.dumps(c))
         vlib.judge_stream(run, "keypress", IMPORTS, "kcase", kc, kres, lambda c, r: "mkk %s %s" % (B_(r.get("muting_announced")), B_(r.get("status_written"))),
                           CLAUSES, (), "Ctrl+O as a real key press: the real Shell.Do with its input on a pipe, the byte 0x0F going through goxterm's key "
                           "handling (which runs the Shell's handler with the terminal's lock held) while shell output is being written - 'forced': the "
